@@ -299,6 +299,11 @@ func HostileString() *rapid.Generator[string] {
 // SmallString is for places where huge strings only slow things down (keys of deep trees).
 func SmallString() *rapid.Generator[string] {
 	return rapid.Custom(func(t *rapid.T) string {
+		if rapid.IntRange(0, 39).Draw(t, "mediumLong") == 0 {
+			// now and then a name long enough to outgrow small pooled buffers (32, 64, 128 bytes)
+			n := rapid.SampledFrom([]int{31, 33, 63, 65, 70, 129}).Draw(t, "len")
+			return strings.Repeat(rapid.SampledFrom([]string{"k", "ab", "seg-"}).Draw(t, "unit"), n)[:n] + rapid.SampledFrom([]string{"", " ", "=", "é"}).Draw(t, "tail")
+		}
 		n := rapid.IntRange(0, 3).Draw(t, "npieces")
 		var sb strings.Builder
 		for i := 0; i < n; i++ {
